@@ -191,3 +191,42 @@ def schema_ok(forest, counters=None, tolerate_partial=False):
           problems.append(('missing-required',
                            f'{where}: required key {str(kspec)!r} is absent'))
   return problems
+
+
+# -- class-level state ---------------------------------------------------------
+
+def defaults_snapshot(classes):
+  """{class name: {field path: repr of the default}} for the schemas of
+  `classes`, nested Dict specs included. The defaults of a class are part of
+  its schema: no operation on a value may change them."""
+  out = {}
+  def walk(prefix, spec, acc, depth=0):
+    if depth > 6:
+      return
+    if spec.has_default:
+      try:
+        acc[prefix] = repr(spec.default)[:400]
+      except Exception as e:  # pylint: disable=broad-except
+        acc[prefix] = f'<repr failed {type(e).__name__}>'
+    if isinstance(spec, T.Dict) and spec.schema is not None:
+      for k, f in spec.schema.fields.items():
+        walk(f'{prefix}.{k}', f.value, acc, depth + 1)
+    elif isinstance(spec, T.List):
+      walk(f'{prefix}[]', spec.element.value, acc, depth + 1)
+  for cls in classes:
+    acc = {}
+    for k, f in cls.__schema__.fields.items():
+      walk(str(k), f.value, acc)
+    out[cls.__name__] = acc
+  return out
+
+
+def defaults_changed(before, after):
+  """[(class name, field path, before, after)]."""
+  out = []
+  for cname, acc in before.items():
+    for path, r in acc.items():
+      now = after.get(cname, {}).get(path)
+      if now != r:
+        out.append((cname, path, r, now))
+  return out
